@@ -1,22 +1,21 @@
 (** * C09: compile-time evaluation of the primitives agrees with the emitted run-time logic.
 
-    [py_*]  : the Python methods as coded (mode [Coded]) or with the proposed patches (mode [Fixed]), Models/Ops.v;
-    [rt_bin], [rt_un] : the value numeric_std computes for the operation the backend emits (Vhdl/NumStd.v);
-    every agreement theorem reads: whenever the fold yields a value and the emitted operation is defined on the
-    operand values, the hardware value IS the folded value (type, width and value), for all widths and all values.
+    [py_bin current], [py_un] : the Python methods of the CURRENT tree (Models/Ops.v; [current] = round-0 code with the
+      three applied C09 fixes: __rmul__, sub at the result width, exact truncdiv / rem; mul-by-int as coded);
+    [rt_bin], [rt_un] : the value numeric_std computes for the operation the backend emits (Vhdl/NumStd.v).
+    Every agreement theorem reads: whenever the fold yields a value and the emitted operation is defined on the operand
+    values, the hardware value IS the folded value (type, width and value) - for all widths and all values.
 
-    _partial / _refuted on the pinned tree:
-    - sub: the coded methods negate the right operand at ITS width; exact guard [sub_guard]; witnesses
-      Unsigned[4](5) - Unsigned[2](1) = 8 and Signed[4](5) - Signed[2](-2) = 3; [Fixed] needs no guard.
-    - mul: Unsigned.__rmul__ multiplies the vector by itself (lhs = int(rhs)); and numeric_std converts an integer factor
-      to the width of the vector first, so a factor that is not representable there gives a different product
-      (Unsigned[4](5) * 17 folds to 85, the hardware yields 5); exact guard [mul_guard]; [Fixed] needs no guard.
-    - truncdiv / rem: int(lhs / rhs) is float division.  The model predicts it only while both operands are below 2^53
-      ([Inexact] beyond, reachable: C09_*_inexact_reachable) - what is missing is the float result itself; the
-      harness exhibits the concrete disagreements (rem(Unsigned[64](2**63+3), 2) = 3); [Fixed] is exact everywhere.
-    - logic: Signed operands of and/or/xor are covered by the correspondence run only (needs a range lemma for land/lor/lxor).
+    Remaining _partial / _refuted:
+    - mul: numeric_std converts an integer factor to the width of the vector operand first, so a factor that is not
+      representable at that width gives a different product (Unsigned[4](5) * 17 folds to 85, the hardware yields 5; the
+      same for Signed and for either operand order).  [mul_guard Fixed Coded] = "the int factor is representable at the
+      vector's width" is the exact guard.  Known finding (upstream tests pin the width of vector * out-of-range int).
+      C09_mul_agrees_all_switches is the same statement for every setting of the two mul switches (with both patches
+      the guard is [true]).
     - totality: only "implemented" (not NoImpl) is claimed, for the arithmetic-like operators on cohdl operand pairs;
-      a fold may still reject by assertion (e.g. Signed[4](-8) / -1); Bit < Bit is defined in VHDL but not in Python. *)
+      a fold may still reject by assertion (e.g. Signed[4](-8) / -1); Bit < Bit is defined in VHDL but not in Python.
+    The round-0 refutations (sub at the rhs width, __rmul__, float division) are regression cases of harness/c09.py. *)
 From Coq Require Import ZArith NArith List Bool Lia.
 From Cohdl Require Import Base.Bits Vhdl.Value Vhdl.NumStd Models.Ops Models.OpsProofs.
 Local Open Scope Z_scope.
@@ -25,69 +24,52 @@ Theorem C09_add_agrees : forall a b t v x, wf a -> wf b -> py_add a b = Value t 
 Proof. exact add_agrees. Qed.
 Print Assumptions C09_add_agrees.
 
-Theorem C09_sub_agrees_partial : forall a b t v x, wf a -> wf b -> sub_guard a b = true ->
-  py_sub Coded a b = Value t v -> rt_bin PSub a b = Ok x -> x = to_v (t, v).
-Proof. exact sub_agrees_partial. Qed.
-Print Assumptions C09_sub_agrees_partial.
+Theorem C09_sub_agrees : forall a b t v x, wf a -> wf b ->
+  py_bin current PSub a b = Value t v -> rt_bin PSub a b = Ok x -> x = to_v (t, v).
+Proof. exact sub_agrees. Qed.
+Print Assumptions C09_sub_agrees.
 
-Theorem C09_sub_refuted : exists a b t v x,
-  wf a /\ wf b /\ py_sub Coded a b = Value t v /\ rt_bin PSub a b = Ok x /\ x <> to_v (t, v).
-Proof. exact sub_refuted. Qed.
-Print Assumptions C09_sub_refuted.
-
-Theorem C09_sub_signed_refuted : exists a b t v x,
-  wf a /\ wf b /\ py_sub Coded a b = Value t v /\ rt_bin PSub a b = Ok x /\ x <> to_v (t, v).
-Proof. exact sub_signed_refuted. Qed.
-Print Assumptions C09_sub_signed_refuted.
-
-Theorem C09_sub_fixed_agrees : forall a b t v x, wf a -> wf b ->
-  py_sub Fixed a b = Value t v -> rt_bin PSub a b = Ok x -> x = to_v (t, v).
-Proof. exact sub_agrees_fixed. Qed.
-Print Assumptions C09_sub_fixed_agrees.
-
-Theorem C09_mul_agrees_partial : forall m a b t v x, wf a -> wf b -> mul_guard m a b = true ->
-  py_mul m a b = Value t v -> rt_bin PMul a b = Ok x -> x = to_v (t, v).
-Proof. exact mul_agrees_partial. Qed.
+Theorem C09_mul_agrees_partial : forall a b t v x, wf a -> wf b -> mul_guard Fixed Coded a b = true ->
+  py_bin current PMul a b = Value t v -> rt_bin PMul a b = Ok x -> x = to_v (t, v).
+Proof. exact mul_agrees_current_partial. Qed.
 Print Assumptions C09_mul_agrees_partial.
 
-Theorem C09_mul_rmul_refuted : exists a b t v x,
-  wf a /\ wf b /\ py_mul Coded a b = Value t v /\ rt_bin PMul a b = Ok x /\ x <> to_v (t, v).
-Proof. exact mul_rmul_refuted. Qed.
-Print Assumptions C09_mul_rmul_refuted.
-
 Theorem C09_mul_int_width_refuted : exists a b t v x,
-  wf a /\ wf b /\ py_mul Coded a b = Value t v /\ rt_bin PMul a b = Ok x /\ x <> to_v (t, v).
+  wf a /\ wf b /\ py_bin current PMul a b = Value t v /\ rt_bin PMul a b = Ok x /\ x <> to_v (t, v).
 Proof. exact mul_int_width_refuted. Qed.
 Print Assumptions C09_mul_int_width_refuted.
 
-Theorem C09_truncdiv_agrees_partial : forall m a b t v x, wf a -> wf b ->
-  py_truncdiv m a b = Value t v -> rt_bin PTruncDiv a b = Ok x -> x = to_v (t, v).
-Proof. exact truncdiv_agrees_partial. Qed.
-Print Assumptions C09_truncdiv_agrees_partial.
+Theorem C09_mul_agrees_all_switches : forall mr m a b t v x, wf a -> wf b -> mul_guard mr m a b = true ->
+  py_mul mr m a b = Value t v -> rt_bin PMul a b = Ok x -> x = to_v (t, v).
+Proof. exact mul_agrees_partial. Qed.
+Print Assumptions C09_mul_agrees_all_switches.
 
-Theorem C09_truncdiv_inexact_reachable : exists a b, wf a /\ wf b /\ py_truncdiv Coded a b = Inexact
-  /\ rt_bin PTruncDiv a b = Ok (VV KSgn 64 (2 ^ 62 + 1)).
-Proof. exact truncdiv_inexact_reachable. Qed.
-Print Assumptions C09_truncdiv_inexact_reachable.
+Theorem C09_truncdiv_agrees : forall a b t v x, wf a -> wf b ->
+  py_bin current PTruncDiv a b = Value t v -> rt_bin PTruncDiv a b = Ok x -> x = to_v (t, v).
+Proof. exact truncdiv_agrees. Qed.
+Print Assumptions C09_truncdiv_agrees.
 
-Theorem C09_floordiv_agrees : forall m a b t v x, wf a -> wf b ->
-  py_floordiv m a b = Value t v -> rt_bin PFloorDiv a b = Ok x -> x = to_v (t, v).
-Proof. exact floordiv_agrees. Qed.
+Theorem C09_floordiv_agrees : forall a b t v x, wf a -> wf b ->
+  py_bin current PFloorDiv a b = Value t v -> rt_bin PFloorDiv a b = Ok x -> x = to_v (t, v).
+Proof. exact floordiv_agrees_current. Qed.
 Print Assumptions C09_floordiv_agrees.
 
 Theorem C09_mod_agrees : forall a b t v x, wf a -> wf b -> py_mod a b = Value t v -> rt_bin PMod a b = Ok x -> x = to_v (t, v).
 Proof. exact mod_agrees. Qed.
 Print Assumptions C09_mod_agrees.
 
-Theorem C09_rem_agrees_partial : forall m a b t v x, wf a -> wf b ->
-  py_rem m a b = Value t v -> rt_bin PRem a b = Ok x -> x = to_v (t, v).
-Proof. exact rem_agrees_partial. Qed.
-Print Assumptions C09_rem_agrees_partial.
+Theorem C09_rem_agrees : forall a b t v x, wf a -> wf b ->
+  py_bin current PRem a b = Value t v -> rt_bin PRem a b = Ok x -> x = to_v (t, v).
+Proof. exact rem_agrees. Qed.
+Print Assumptions C09_rem_agrees.
 
-Theorem C09_rem_inexact_reachable : exists a b, wf a /\ wf b /\ py_rem Coded a b = Inexact
-  /\ rt_bin PRem a b = Ok (VV KUns 64 1).
-Proof. exact rem_inexact_reachable. Qed.
-Print Assumptions C09_rem_inexact_reachable.
+Theorem C09_current_never_inexact : forall op a b, py_bin current op a b <> Inexact.
+Proof. exact current_never_inexact. Qed.
+Print Assumptions C09_current_never_inexact.
+
+Theorem C09_methods_never_inexact : forall op a, py_un op a <> Inexact.
+Proof. exact un_never_inexact. Qed.
+Print Assumptions C09_methods_never_inexact.
 
 Theorem C09_shl_agrees : forall a b t v x, wf a -> wf b -> py_shl a b = Value t v -> rt_bin PShl a b = Ok x -> x = to_v (t, v).
 Proof. exact shl_agrees. Qed.
@@ -108,10 +90,10 @@ Theorem C09_concat_agrees : forall a b t v x, wf a -> wf b ->
 Proof. exact concat_agrees. Qed.
 Print Assumptions C09_concat_agrees.
 
-Theorem C09_logic_agrees_partial : forall op a b t v x, wf a -> wf b -> not_signed a = true ->
+Theorem C09_logic_agrees : forall op a b t v x, wf a -> wf b ->
   py_logic op a b = Value t v -> logic op (to_v a) (to_v b) = Ok x -> x = to_v (t, v).
-Proof. exact logic_agrees_partial. Qed.
-Print Assumptions C09_logic_agrees_partial.
+Proof. exact logic_agrees. Qed.
+Print Assumptions C09_logic_agrees.
 
 Theorem C09_neg_agrees : forall a t v x, wf a -> py_un MNeg a = Value t v -> rt_un MNeg a = Ok x -> x = to_v (t, v).
 Proof. exact neg_agrees. Qed.
@@ -130,7 +112,7 @@ Theorem C09_view_agrees : forall op a t v x, wf a -> (op = MAsU \/ op = MAsS \/ 
 Proof. exact view_agrees. Qed.
 Print Assumptions C09_view_agrees.
 
-Theorem C09_type_as_documented : forall m op a b t v, py_bin m op a b = Value t v ->
+Theorem C09_type_as_documented : forall c op a b t v, py_bin c op a b = Value t v ->
   match spec_ty op (fst a) (fst b) with
   | Some t' => t = t' \/ (t = TInt /\ t' = TPy) \/ (t = TPy /\ t' = TInt) \/ (op = PAnd \/ op = POr \/ op = PXor)
   | None => op = PAnd \/ op = POr \/ op = PXor \/ op = PEq \/ op = PNe
@@ -138,13 +120,13 @@ Theorem C09_type_as_documented : forall m op a b t v, py_bin m op a b = Value t 
 Proof. exact type_as_documented. Qed.
 Print Assumptions C09_type_as_documented.
 
-Theorem C09_fold_total_where_runtime_defined_partial : forall m op a b x,
+Theorem C09_fold_total_where_runtime_defined_partial : forall c op a b x,
   arith_like op = true -> cohdl_operands a b = true -> signed_count op b = false ->
-  rt_bin op a b = Ok x -> py_bin m op a b <> NoImpl.
+  rt_bin op a b = Ok x -> py_bin c op a b <> NoImpl.
 Proof. exact fold_total_partial. Qed.
 Print Assumptions C09_fold_total_where_runtime_defined_partial.
 
-Theorem C09_fold_total_refuted : exists op a b x, rt_bin op a b = Ok x /\ py_bin Coded op a b = NoImpl.
+Theorem C09_fold_total_refuted : exists op a b x, rt_bin op a b = Ok x /\ py_bin current op a b = NoImpl.
 Proof. exact fold_total_refuted. Qed.
 Print Assumptions C09_fold_total_refuted.
 
@@ -153,32 +135,22 @@ Theorem C09_add_nonvacuous : exists a b t v x, wf a /\ wf b /\ py_add a b = Valu
 Proof. exact add_nonvacuous. Qed.
 Print Assumptions C09_add_nonvacuous.
 
-Theorem C09_sub_nonvacuous : exists a b t v x,
-  wf a /\ wf b /\ sub_guard a b = true /\ py_sub Coded a b = Value t v /\ rt_bin PSub a b = Ok x.
+Theorem C09_sub_nonvacuous : exists a b t v x, wf a /\ wf b /\ py_bin current PSub a b = Value t v /\ rt_bin PSub a b = Ok x.
 Proof. exact sub_nonvacuous. Qed.
 Print Assumptions C09_sub_nonvacuous.
 
-Theorem C09_sub_fixed_nonvacuous : exists a b t v x, wf a /\ wf b /\ py_sub Fixed a b = Value t v /\ rt_bin PSub a b = Ok x.
-Proof. exact sub_fixed_nonvacuous. Qed.
-Print Assumptions C09_sub_fixed_nonvacuous.
-
 Theorem C09_mul_nonvacuous : exists a b t v x,
-  wf a /\ wf b /\ mul_guard Coded a b = true /\ py_mul Coded a b = Value t v /\ rt_bin PMul a b = Ok x.
+  wf a /\ wf b /\ mul_guard Fixed Coded a b = true /\ py_bin current PMul a b = Value t v /\ rt_bin PMul a b = Ok x.
 Proof. exact mul_nonvacuous. Qed.
 Print Assumptions C09_mul_nonvacuous.
 
-Theorem C09_mul_fixed_nonvacuous : exists a b t v x,
-  wf a /\ wf b /\ mul_guard Fixed a b = true /\ py_mul Fixed a b = Value t v /\ rt_bin PMul a b = Ok x.
-Proof. exact mul_fixed_nonvacuous. Qed.
-Print Assumptions C09_mul_fixed_nonvacuous.
-
 Theorem C09_truncdiv_nonvacuous : exists a b t v x,
-  wf a /\ wf b /\ py_truncdiv Coded a b = Value t v /\ rt_bin PTruncDiv a b = Ok x.
+  wf a /\ wf b /\ py_bin current PTruncDiv a b = Value t v /\ rt_bin PTruncDiv a b = Ok x.
 Proof. exact truncdiv_nonvacuous. Qed.
 Print Assumptions C09_truncdiv_nonvacuous.
 
 Theorem C09_floordiv_nonvacuous : exists a b t v x,
-  wf a /\ wf b /\ py_floordiv Coded a b = Value t v /\ rt_bin PFloorDiv a b = Ok x.
+  wf a /\ wf b /\ py_bin current PFloorDiv a b = Value t v /\ rt_bin PFloorDiv a b = Ok x.
 Proof. exact floordiv_nonvacuous. Qed.
 Print Assumptions C09_floordiv_nonvacuous.
 
@@ -186,7 +158,7 @@ Theorem C09_mod_nonvacuous : exists a b t v x, wf a /\ wf b /\ py_mod a b = Valu
 Proof. exact mod_nonvacuous. Qed.
 Print Assumptions C09_mod_nonvacuous.
 
-Theorem C09_rem_nonvacuous : exists a b t v x, wf a /\ wf b /\ py_rem Coded a b = Value t v /\ rt_bin PRem a b = Ok x.
+Theorem C09_rem_nonvacuous : exists a b t v x, wf a /\ wf b /\ py_bin current PRem a b = Value t v /\ rt_bin PRem a b = Ok x.
 Proof. exact rem_nonvacuous. Qed.
 Print Assumptions C09_rem_nonvacuous.
 
@@ -208,7 +180,7 @@ Proof. exact concat_nonvacuous. Qed.
 Print Assumptions C09_concat_nonvacuous.
 
 Theorem C09_logic_nonvacuous : exists a b t v x,
-  wf a /\ wf b /\ not_signed a = true /\ py_logic OXor a b = Value t v /\ logic OXor (to_v a) (to_v b) = Ok x.
+  wf a /\ wf b /\ py_logic OXor a b = Value t v /\ logic OXor (to_v a) (to_v b) = Ok x.
 Proof. exact logic_nonvacuous. Qed.
 Print Assumptions C09_logic_nonvacuous.
 
